@@ -1,7 +1,9 @@
 """Shared pieces for the scheduler properties (C01, C02, C05, C06): a reference scheduler written
 from the property statements and recording System subclasses that act from a script."""
+import os
 import sys
 
+from ECAgent.Collectors import Collector, FileCollector
 from ECAgent.Core import Model, System, SystemNotFoundError, ModelCompleteError  # noqa: F401
 
 MAXSIZE = sys.maxsize
@@ -64,8 +66,16 @@ class Rec(System):
                          start=spec["start"], end=spec["end"])
         self.world = world
 
+    RETURNS = None      # scenario flavour (set by rec_class): what execute() hands back - the scheduler must not care
+
     def execute(self):
         self.world.on_execute(self)
+        how = Rec.RETURNS
+        if how == "false":
+            return False
+        if how == "mixed":
+            return [False, 0, None, True, "stop", [], StopIteration][sum(map(ord, str(self.id))) % 7]
+        return None
 
 
 class EqRec(Rec):
@@ -76,6 +86,31 @@ class EqRec(Rec):
         return isinstance(other, System) and self.priority == other.priority
 
     __hash__ = None
+
+
+class RecCollectorSys(Collector):
+    """A recording system that is a bundled Collector (collect() is its turn)."""
+
+    def __init__(self, spec, model, world):
+        spec = spec_defaults(spec)
+        super().__init__(spec["id"], model, priority=spec["prio"], frequency=spec["freq"], start=spec["start"], end=spec["end"])
+        self.world = world
+
+    def collect(self):
+        self.world.on_execute(self)
+
+
+class RecFileSys(FileCollector):
+    """A recording system that is a bundled FileCollector which never reaches its flush threshold (nothing is written)."""
+
+    def __init__(self, spec, model, world):
+        spec = spec_defaults(spec)
+        super().__init__(spec["id"], model, os.devnull, priority=spec["prio"], frequency=spec["freq"], start=spec["start"],
+                         end=spec["end"], write_count=10 ** 9)
+        self.world = world
+
+    def collect(self):
+        self.world.on_execute(self)
 
 
 class LenRec(Rec):
@@ -94,14 +129,20 @@ class BoolRec(Rec):
 def gen_flavour(rng):
     """Scenario fields deciding the class of the recording systems (drawn last, so older fields keep their stream)."""
     r = rng.random()
+    ret = rng.choice([None, None, None, None, None, "false", "mixed"])      # execute() of a user system may return anything
     if r < 0.12:
-        return {"value_eq": True}
+        return {"value_eq": True, "returns": ret}
     if r < 0.24:
-        return {"value_eq": False, "falsy": rng.choice(["len", "bool"])}
-    return {"value_eq": False}
+        return {"value_eq": False, "falsy": rng.choice(["len", "bool"]), "returns": ret}
+    if r < 0.34:
+        return {"value_eq": False, "syskind": rng.choice(["collector", "file", "file"]), "returns": None}
+    return {"value_eq": False, "returns": ret}
 
 
 def rec_class(sc, ctx=None):
+    Rec.RETURNS = sc.get("returns")
+    if sc.get("returns") and ctx is not None:
+        ctx.probe("systems_returning_values_from_execute")
     if sc.get("value_eq"):
         if ctx is not None:
             ctx.probe("systems_with_value_equality")
@@ -110,6 +151,10 @@ def rec_class(sc, ctx=None):
         if ctx is not None:
             ctx.probe("falsy_systems")
         return LenRec if sc["falsy"] == "len" else BoolRec
+    if sc.get("syskind"):
+        if ctx is not None:
+            ctx.probe("systems_that_are_bundled_collectors")
+        return RecFileSys if sc["syskind"] == "file" else RecCollectorSys
     return Rec
 
 
